@@ -343,7 +343,7 @@ impl Engine for HrEngine {
             let (model_line, exec_line) = match w[0] { "notify-nosync" => (line.replacen("notify-nosync", "notify", 1), line.clone()), "reload-now" => ("reload".to_string(), line.clone()), _ => (line.clone(), line.clone()) };
             let out = match w[0] {
                 "notify-nosync" => { if let Some(tx) = wx.src.sender() { let e = &w[1]; let p: Vec<&str> = e.split(':').collect(); let _ = tx.send(assets_manager::source::OwnedDirEntry::File(unhexs(p[1]).into(), unhexs(p[2]).into())); } "ok".to_string() }
-                "reload-now" => { if let Fe::Shared(c) = &wx.fe { c.hot_reload(); } "ok".to_string() }
+                "reload-now" => wx.reload_call(),
                 _ => wx.op(&exec_line),
             };
             rec.op(model_line, out.clone());
